@@ -12,7 +12,7 @@ class C04(Prop):
     id = 'C04'
     title = 'BIP143 witness-v0 signature hash equals the spec over the full field range'
     lean_targets = ['BtcVerif.Props.C04']
-    table_groups = []
+    table_groups = ['Sighash']
     theorems = ['BtcVerif.C04.' + t for t in ('bip143_eq_spec', 'bip143_eq_spec_wf', 'bip143_defined',
                                          'bip143_no_pyexc', 'bip143_index_error')]
     anchors = [('bitcoin/core/script.py', 'SignatureHash')]
@@ -64,7 +64,7 @@ class C04(Prop):
 
     def generate(self, rng, tier, shard, nshards):
         big = tier == 'thorough'
-        ntx = 480 if big else 32
+        ntx = 960 if big else 32
         per = max(1, ntx // nshards)
         shapes = [(1, 0), (1, 1), (2, 1), (2, 2), (3, 2), (2, 3), (4, 4), (4, 0), (3, 1), (1, 4), (4, 3), (3, 3)]
         txs = []
